@@ -236,6 +236,22 @@ pub fn place(s: &str, pos: usize) -> V {
     }
 }
 
+pub const WRAPPED_LEAVES: &[&str] = &["text", "a\nb", "a\n\nb\n", "x\n  y\n", " lead\nz", "l1\nl2\nl3", "a\n \nb", "tail \nx\n\n"];
+
+/// `leaf` under `depth` wrapping collections: pattern 0 = sequences, 1 = mappings, 2 = alternating
+pub fn wrap_leaf(leaf: &str, depth: usize, pattern: u8) -> V {
+    let mut v = V::Str(leaf.to_string());
+    for i in 0..depth {
+        let map = match pattern {
+            0 => false,
+            1 => true,
+            _ => i % 2 == 0,
+        };
+        v = if map { V::Map(vec![(V::Str(format!("k{i}")), v)]) } else { V::Seq(vec![v]) };
+    }
+    v
+}
+
 pub fn case_json(v: &V, compact: bool, multiline: bool) -> Value {
     json!({"tree": v.to_json(), "compact": compact, "multiline_strings": multiline})
 }
@@ -257,7 +273,8 @@ impl Property for C09P {
         "Value trees: (a) every string up to the stated length over a 30-symbol alphabet of indicators, blanks, breaks, quotes, digits and \
          type-like fragments, placed as root, sequence item, mapping key and mapping value; (b) proptest prop_recursive trees of nulls, \
          booleans, i64 (boundaries), f64 (integral, subnormal, huge, +-0, +-inf, NaN), strings (alphabet mixes, core-schema look-alikes, \
-         Unicode, control characters, 1000..2500-char strings), sequences and mappings with scalar and collection keys, depth <= 5. \
+         Unicode, control characters, 1000..2500-char strings), sequences and mappings with scalar and collection keys, depth <= 5; \
+         (c) single- and multi-line strings under 0..24 wrapping collections. \
          Each under compact on/off x multiline_strings on/off. Oracle: emit -> Yaml::load_from_str gives exactly one document that is \
          structurally equal (same variants, library equality on scalars, same order) and re-emits to the same text. \
          Non-trivial = contains a string that is not purely alphanumeric, or a float, or a collection key, or depth >= 3; distinct by (tree, settings)."
@@ -271,6 +288,7 @@ impl Property for C09P {
         vec![
             StreamSpec::new("exh-strings", n.div_ceil(EXH_BLOCK), true, &format!("every string of length <= {} over 30 symbols ({n}) x 4 positions x 4 emitter settings", exh_len(tier))),
             StreamSpec::new("trees", rand_cases(tier).div_ceil(RAND_BLOCK), false, &format!("{} proptest value trees x a generated emitter setting", rand_cases(tier))),
+            StreamSpec::new("wrapped", 1, true, &format!("{} leaf strings (single- and multi-line) under 0..24 wrapping collections (all sequences / all mappings / alternating) x 4 emitter settings: block scalars at every indentation up to 48 columns", WRAPPED_LEAVES.len())),
         ]
     }
     fn run_block(&self, ctx: &mut Ctx, stream: &str, block: u64) {
@@ -288,6 +306,26 @@ impl Property for C09P {
                         });
                         if let Err(f) = r {
                             ctx.record(case_json(&v, compact, multiline), &f);
+                        }
+                    }
+                }
+            }
+            return;
+        }
+        if stream == "wrapped" {
+            for leaf in WRAPPED_LEAVES {
+                for depth in 0..=24usize {
+                    for pattern in 0..3u8 {
+                        let v = wrap_leaf(leaf, depth, pattern);
+                        for (compact, multiline) in [(true, false), (false, false), (true, true), (false, true)] {
+                            let r = ctx.eval(&|| case_json(&v, compact, multiline), |info: &mut CaseInfo| {
+                                info.nontrivial(&(leaf, depth, pattern, compact, multiline));
+                                info.class_if(depth >= 8, "wrapped-depth>=8");
+                                check_tree(&v, compact, multiline)
+                            });
+                            if let Err(f) = r {
+                                ctx.record(case_json(&v, compact, multiline), &f);
+                            }
                         }
                     }
                 }
